@@ -1,2 +1,93 @@
--- driver stub (not built yet)
-def main : IO Unit := pure ()
+import QmcModel.Proto
+import QmcModel.Pool
+import QmcModel.Generated.PoolCaps
+open Qmc Qmc.Proto Qmc.Pool
+
+/-!
+C18 driver.
+
+`pool <kind> <before counts> <word>` →
+    `<word ∈ grammar kind: 1|0> <counts after | X> <fewest free instances per type>`
+  counts are comma lists in the order of `Ty.all` (= field order of `DefaultFastOpAllocator`);
+  the word is a string of two-character events `g?`/`r?` with `?` one of `UBSLOFCVH`; `-` = empty.
+`snap <before counts>` → the model's prediction for the occupancy after any public call whose
+  event word could not be observed (rayon worker threads): unchanged.
+`caps` → the capacities the proofs were checked against (regenerated from the source).
+`bc <ops>` → one token per op with the container state (`i<k>:<w>` insert, `r<k>` remove,
+  `c` clear).
+-/
+
+def tyOfChar : Char → Option Ty
+  | 'U' => some .usize
+  | 'B' => some .bool
+  | 'S' => some .opside
+  | 'L' => some .leg
+  | 'O' => some .optUsize
+  | 'F' => some .f64
+  | 'C' => some .bcUsize
+  | 'V' => some .bcVarPos
+  | 'H' => some .heap
+  | _ => none
+
+def parseWord (s : String) : Option (List Ev) :=
+  if s == "-" then some [] else
+  let rec go : List Char → Option (List Ev)
+    | [] => some []
+    | 'g' :: c :: rest => do
+      let t ← tyOfChar c
+      let w ← go rest
+      pure (.get t :: w)
+    | 'r' :: c :: rest => do
+      let t ← tyOfChar c
+      let w ← go rest
+      pure (.ret t :: w)
+    | _ => none
+  go s.toList
+
+def capsOfList (xs : List Nat) : Caps := fun t =>
+  match Ty.all.idxOf? t with
+  | some i => xs.getD i 0
+  | none => 0
+
+def showCaps (c : Caps) : String := showNats (Ty.all.map c)
+
+def showBC (b : BC) : String :=
+  let m := showList (fun o => match o with | none => "n" | some i => toString i) b.map
+  let k := showList (fun (kw : Nat × Rat) => s!"{kw.1}:{showRat kw.2}") b.keys
+  s!"m={m};k={k};t={showRat b.total};c={showBool b.clean}"
+
+def bcStep (b : BC) (op : String) : BC :=
+  match op.toList with
+  | 'c' :: _ => b.clear
+  | 'r' :: rest => b.remove (parseNat (String.ofList rest))
+  | 'i' :: rest =>
+    match (String.ofList rest).splitOn ":" with
+    | [k, w] => b.insert (parseNat k) (parseRat w)
+    | _ => b
+  | _ => b
+
+def step (toks : List String) : String :=
+  match toks with
+  | "pool" :: kind :: before :: word :: _ =>
+    match Update.ofString? kind, parseWord word with
+    | some u, some w =>
+      let c := capsOfList (parseNats before)
+      let m := matchesD (grammar u) w
+      let after := match Pool.run c w with
+        | some c' => showCaps c'
+        | none => "X"
+      let low := String.intercalate "," (Ty.all.map fun t => toString (minFree t (c t) w))
+      let where_ := if m then "" else s!" left-grammar-at-event-{viablePrefix (grammar u) w}"
+      s!"{showBool m} {after} {low}{where_}"
+    | _, _ => "bad-input"
+  | ["caps"] => showCaps Generated.caps
+  | "snap" :: before :: _ => showNats (parseNats before)
+  | ["bc", ops] =>
+    let ops := if ops == "-" then [] else ops.splitOn ","
+    let (_, outs) := ops.foldl (fun (acc : BC × List String) op =>
+      let b := bcStep acc.1 op
+      (b, showBC b :: acc.2)) (BC.new, [])
+    if outs.isEmpty then "-" else String.intercalate " " outs.reverse
+  | _ => "bad-op"
+
+def main : IO Unit := Proto.run step
